@@ -85,8 +85,13 @@ def gen_stream(rng, n, awkward=False, blob_unique=True):
                     mode = rng.choice(["ok", "ok", "empty", "absent"] + (["wrong_size", "bad_b64"] if awkward else []))
                     data = bytes([i % 256, len(out) % 256, rng.randrange(256), rng.randrange(256)]) + bytes(rng.randrange(256) for _ in range(rng.randint(0, 20)))
                     if mode == "ok":
+                        if rng.random() < 0.4:
+                            data += bytes(rng.randrange(256) for _ in range(rng.randint(60, 200)))
                         ka += [["size", str(len(data))], ["format", rng.choice([".fits", ".b", ""])]]
                         text = base64.b64encode(data).decode()
+                        if len(text) > 76 and rng.random() < 0.7:
+                            # foreign servers (indiserver) wrap base64 payloads at 72 columns
+                            text = "\n".join(text[i:i + 72] for i in range(0, len(text), 72))
                     elif mode == "empty":
                         ka += [["size", "0"], ["format", ".e"]]
                         text = ""
